@@ -239,6 +239,17 @@ func genB(rng *sim.Rng) *Scenario {
 				sc.Tasks[t] = append(sc.Tasks[t], Op{K: "recv", Ch: c})
 			case r < 9:
 				op := Op{K: "select", Default: rng.Intn(3) != 0}
+				// one form is made on purpose: a send case (on a channel this task owns)
+				// in front of the receive cases, so that case index and receive index differ
+				if rng.Intn(3) == 0 {
+					for cc := 0; cc < nch; cc++ {
+						if owner[cc] == t && cc != fan && cc != plain {
+							val++
+							op.Cases = append(op.Cases, Case{Ch: cc, Send: true, Val: val})
+							break
+						}
+					}
+				}
 				for k, m := 0, rng.Range(1, 3); k < m; k++ {
 					cc := rng.Intn(nch)
 					if cc == plain {
